@@ -60,6 +60,10 @@ SCENARIOS = [
      {'t1': S(0, 1), 't2': S(1, 3), 't3': S(2, 1, 0, 1, rpn=1, prio=1)}, ['t3']),
     ('mem-gpu',   R.Layout(2, 2, 2, 0, 3),
      {'t1': S(2, 1, 2, mem=2), 't2': S(1, 1, 3), 't3': S(1, 2, 1, mem=1, prio=2)}, ['t1']),
+    ('lfs-mem',   R.Layout(1, 2, 0, 2, 4),
+     {'t1': S(2, 1, 0, 1, 2), 't2': S(1, 1, 0, 1, 1, prio=1), 't3': S(1, 1, 0, 2, 0)}, ['t3']),
+    ('gpu-blocked', R.Layout(2, 2, 2, 0, 0, bg=(0,)),
+     {'t1': S(1, 1, 2), 't2': S(2, 1, 1), 't3': S(1, 1, 4)}, ['t1']),
     ('nodes3',    R.Layout(3, 1, 0, 0, 0),
      {'t1': S(1, 1), 't2': S(1, 1, prio=1), 't3': S(2, 1)}, ['t2']),
 ]
@@ -174,6 +178,7 @@ CATALOGUE = [
     S(2, 1, 0, 0, 2), S(3, 1, rpn=1), S(2, 1, rpn=1), S(4, 1, rpn=2), S(1, 1, colo='a'),
     S(2, 1, colo='a'), S(1, 2, colo='b'), S(0, 1), S(1, 9), S(1, 1, 3), S(1, 0), S(1, 1, 64),
     S(2, 1, 1, 1, 1), S(1, 1, named_env=True), S(1, 3), S(6, 1),
+    S(2, 1, 0, 1, 2), S(3, 1, 0, 1, 2), S(2, 1, 0, 2, 1), S(2, 1, 1, 1, 2), S(2, 2, 0, 1, 3),
 ]
 
 LAYOUTS = [
@@ -181,6 +186,7 @@ LAYOUTS = [
     R.Layout(2, 3, 2, 0, 2, bc=(0,), bg=(1,)), R.Layout(4, 2, 0, 0, 0),
     R.Layout(2, 4, 2, 3, 3, su=4), R.Layout(2, 2, 1, 2, 2, agents=1),
     R.Layout(3, 3, 1, 2, 0, bc=(2,)),
+    R.Layout(2, 2, 2, 0, 0, bg=(0,)), R.Layout(1, 2, 0, 2, 4), R.Layout(2, 3, 0, 2, 6),
 ]
 
 
@@ -314,6 +320,17 @@ def run(chk, tier, seed):
         traces.append((lay, rig.run()))
         inputs.append({'kind': 'random', 'seed': s, 'layout': lay.__dict__, 'shapes': shapes,
                        'cancelable': [], 'scattered': sc, 'p_env': pe})
+
+    # ---- 4c. (thorough) a pilot-sized bulk: more than 512 releases pending in one loop
+    #          iteration (the drain of the unschedule queue works in bulks of 512)
+    if not quick:
+        lay = R.Layout(9, 64, 0, 0, 0)
+        shapes = {'t%03d' % i: S(1, 1) for i in range(560)}
+        script = [(1, ('arrive', sorted(shapes))), (5000, ('complete_all',))]
+        rig = ScriptRig(lay, shapes, script=list(script), seed=0, cancelable=[], max_points=20000)
+        traces.append((lay, rig.run()))
+        inputs.append({'kind': 'tlc-behaviour', 'scenario': 'bulk-560', 'script': script,
+                       'layout': lay.__dict__, 'shapes': shapes, 'scattered': True})
 
     # ---- 5. validate all traces with the monitor, grouped by layout -------------
     groups = {}
